@@ -258,6 +258,7 @@ func checkC13(w *World, r *Report) {
 
 	checkR13_2(w, r, kt)
 	checkR13_3(w, r, kt)
+	checkPassSeesParserTokens(w, r)
 }
 
 func exprArgs(c *ast.CallExpr) string {
@@ -1063,4 +1064,112 @@ func (w *World) scanTrimHelper(fd *ast.FuncDecl) (dir string, cut string, ok boo
 	}
 	sort.Slice(rs, func(i, j int) bool { return rs[i] < rs[j] })
 	return dir, string(rs), true
+}
+
+// checkPassSeesParserTokens — R13.4: the whitespace pass rewrites the very tokens the parser
+// reads.  The pass works on a slice it loads from a field of the tokenizer (t.result); every
+// successful return of a tokenizer function that hands Parse its token slice returns that field
+// (or the value it has just stored there), never a copy: a copy made for some templates only
+// (large ones) is parsed untrimmed, so every dash in such a template trims nothing.
+func checkPassSeesParserTokens(w *World, r *Report) {
+	tokenT := w.named("Token")
+	// fields that passes read their token slice from
+	passFields := map[string]bool{}
+	for _, fn := range w.pkgFuncs() {
+		if fn.Signature.Recv() == nil {
+			continue
+		}
+		trims := false
+		instrsOf(fn, func(in ssa.Instruction) {
+			if c, ok := in.(*ssa.Call); ok {
+				if g := c.Call.StaticCallee(); g != nil && w.inPkg(g) && g.Object() != nil {
+					if d := w.decls[g.Object().(*types.Func)]; d != nil {
+						if _, _, ok := w.trimHelper(d); ok {
+							trims = true
+						}
+					}
+				}
+			}
+		})
+		if !trims {
+			continue
+		}
+		instrsOf(fn, func(in ssa.Instruction) {
+			ia, ok := in.(*ssa.IndexAddr)
+			if !ok {
+				return
+			}
+			sl, ok := deref(ia.X.Type()).Underlying().(*types.Slice)
+			if !ok || !types.Identical(sl.Elem(), tokenT) {
+				return
+			}
+			if u, ok := unspill(ia.X).(*ssa.UnOp); ok {
+				if fa, ok := u.X.(*ssa.FieldAddr); ok {
+					tn, f := fieldOfAddr(fa)
+					passFields[tn+"."+f] = true
+				}
+			}
+		})
+	}
+	if len(passFields) == 0 {
+		r.note("R13.4: no whitespace pass reads its tokens from a tokenizer field (the pass works on its argument)")
+		return
+	}
+	n := 0
+	for _, fn := range w.pkgFuncs() {
+		recv := fn.Signature.Recv()
+		res := fn.Signature.Results()
+		if recv == nil || res.Len() != 2 {
+			continue
+		}
+		sl, ok := res.At(0).Type().Underlying().(*types.Slice)
+		if !ok || !types.Identical(sl.Elem(), tokenT) {
+			continue
+		}
+		// stores the field the pass reads?
+		var stored []ssa.Value
+		instrsOf(fn, func(in ssa.Instruction) {
+			if st, ok := in.(*ssa.Store); ok {
+				if fa, ok := st.Addr.(*ssa.FieldAddr); ok {
+					tn, f := fieldOfAddr(fa)
+					if passFields[tn+"."+f] {
+						stored = append(stored, st.Val)
+					}
+				}
+			}
+		})
+		if len(stored) == 0 {
+			continue
+		}
+		instrsOf(fn, func(in ssa.Instruction) {
+			ret, ok := in.(*ssa.Return)
+			if !ok {
+				return
+			}
+			rr := retResults(ret)
+			if len(rr) != 2 || !isNilConst(rr[1]) {
+				return
+			}
+			n++
+			construct := "tokens returned to the parser are the ones the whitespace pass rewrites"
+			good := false
+			if u, ok := rr[0].(*ssa.UnOp); ok {
+				if fa, ok := u.X.(*ssa.FieldAddr); ok {
+					tn, f := fieldOfAddr(fa)
+					good = passFields[tn+"."+f]
+				}
+			}
+			for _, sv := range stored {
+				if sameValue(sv, rr[0]) {
+					good = true
+				}
+			}
+			if good {
+				r.ok("R13.4", ssaName(fn), construct, w.posOf(ret.Pos()), "the returned slice is the tokenizer field the pass works on", true)
+			} else {
+				r.bad("R13.4", ssaName(fn), construct, w.posOf(ret.Pos()), "this return hands the parser a slice other than the tokenizer field the whitespace-control pass rewrites (a copy): the pass trims tokens the parser never reads, so in templates that take this path every `-` delimiter parses but trims nothing")
+			}
+		})
+	}
+	r.Counts["successful returns of tokenizers whose tokens a pass rewrites"] = n
 }
